@@ -32,6 +32,10 @@ def generate(tier, seed):
     # reverses which of them carries the larger residue number (pair treatment must not follow the numbers)
     for k in range(8 if tier == "quick" else 160):
         cases.append({"kind": "his-amide", "relabel": "shift", "index": k, "seed": "%d:ha:%d" % (seed, k), "cost": 30})
+    # a cluster with non-covalently coupled groups whose numbers are shifted into four columns (1000 and above,
+    # -100 and below): the labels grow wider, the coupling analysis must not notice
+    for k in range(40 if tier == "quick" else 1200):
+        cases.append({"kind": "fourdigit", "relabel": "shift", "seed": "%d:fd:%d" % (seed, k), "cost": 14})
     return cases
 
 
@@ -335,6 +339,29 @@ def run_case(case, tier):
         if recs is None:
             return util.finish(case, viol, counts, classes, False, {"skipped": "site not in the cut-out"}, inconclusive="no site")
         preset = (new_, rdesc_)
+    elif case["kind"] == "fourdigit":
+        from .c15 import cluster_cutout
+        for _try in range(5):
+            recs = cluster_cutout(rng)
+            probe_ = obs.run_single(pdbio.dump(recs), write_pka=False)
+            if probe_.rec and any(g_["ncov"] for g_ in probe_.rec["confs"][probe_.rec["names"][0]]["groups"]):
+                classes.append("coupled-groups-in-the-cluster")
+                break
+        new_ = []
+        sh_ = {}
+        for c_ in sorted({r.chain for r in recs if r.raw is None}):
+            nums_ = [r.resnum for r in recs if r.raw is None and r.chain == c_]
+            s_ = rng.choice((1000, 1500, 3000, 9000 - max(nums_), -100 - max(nums_), -900 - min(nums_)))
+            if min(nums_) + s_ < -999 or max(nums_) + s_ > 9999:
+                s_ = 1000 if max(nums_) + 1000 <= 9999 else 0
+            sh_[c_] = s_
+        for r in recs:
+            if r.raw is None:
+                r = r.copy()
+                r.resnum += sh_[r.chain]
+            new_.append(r)
+        preset = (new_, {"shift": sh_, "crosses_zero": False, "packed": False, "four_columns": True})
+        classes.append("numbers-shifted-into-four-columns")
     elif case["kind"] == "file":
         recs = sources.full_protein(case["file"])
     elif case["kind"] == "cutout":
@@ -346,7 +373,7 @@ def run_case(case, tier):
         recs, ntw = make_twins(base, rng)
     if case["kind"] in ("cutout", "twins") and rng.random() < 0.35:
         recs = split_chains(recs, rng, classes)
-    if case["kind"] not in ("file", "his-amide") and rng.random() < 0.25:
+    if case["kind"] not in ("file", "his-amide", "fourdigit") and rng.random() < 0.25:
         # two copies of one ligand in two chains, under different residue numbers
         from .. import fragments
         from .c16 import titratable_anchor
@@ -359,7 +386,7 @@ def run_case(case, tier):
             if frag:
                 recs = recs + frag
         classes.append("ligand-copies-in-two-chains")
-    if case["kind"] not in ("file", "his-amide") and rng.random() < 0.2:
+    if case["kind"] not in ("file", "his-amide", "fourdigit") and rng.random() < 0.2:
         # a ligand deposited as two linked hetero residues (numbers n and n + 2): its groups are a few bonds apart
         # and in different residues, with a gap in the numbering that an order-preserving renumbering may close
         from .. import fragments
